@@ -206,6 +206,23 @@ def pattern_value_pairing(F, rep, fns):
                     # the start expression with its named parts spelled out, level by level (`start` / `n - k` / `values.len() - x.suffix.len()`)
                     forms = [re.sub(r"[\s()]", "", render(sc.expand(rng[0][1], d))) for d in range(0, 4)]
                     ok = any(re.match(r"^\w+\.len-[\w.]*suffix\.len$", f) for f in forms)
+                    if not ok:
+                        # the same statement by value: START == len(values) - len(suffix) for all lengths with len(suffix) <= len(values)
+                        # (`checked_sub` matched on Some, `saturating_sub`, named parts: whatever evaluates)
+                        from rules.pattern_arity import Lengths
+                        L = Lengths(sc)
+                        pat_op = ops[0] if is_suffix[0] else ops[1]
+                        base = other
+                        while is_node(base) and base[0] in ("mcall", "ref"):
+                            base = base[1] if base[0] == "mcall" else base[2]
+                        sk, vk = L.key(pat_op[1] if is_node(pat_op) and pat_op[0] == "mcall" else pat_op), L.key(base[1]) if is_node(base) and base[0] == "index" else None
+                        if sk is not None and vk is not None and sk != vk:
+                            ok = True
+                            for nv in range(0, 5):
+                                for ns in range(0, nv + 1):
+                                    L.env = {sk: ns, vk: nv}
+                                    if L.ev(rng[0][1]) != nv - ns:
+                                        ok = False
                 rep.check(ok, "C16-R7", key + ":suffix-anchored-at-len-minus-suffix",
                           "%s: the suffix patterns are not paired with the slice `values[len - suffix.len()..]` (`%s`)" % (it["name"], render(other)[:60]), "%s (mech_interpreter.lib)" % it["name"])
     rep.floor("C16-R7", "pattern/value zips in the matcher", n, 2)
